@@ -30,6 +30,19 @@ from cobald.daemon.runners.base_runner import OrphanedReturn
 
 FLAVOURS = {"asyncio": asyncio, "trio": trio, "threading": threading}
 
+# fault injection: while a thread has set FAULT.no_threads, the OS "cannot start new threads" for it
+FAULT = threading.local()
+_real_start_new_thread = threading._start_new_thread
+
+
+def _faulty_start_new_thread(*args, **kwargs):
+    if getattr(FAULT, "no_threads", False):
+        raise RuntimeError("can't start new thread")
+    return _real_start_new_thread(*args, **kwargs)
+
+
+threading._start_new_thread = _faulty_start_new_thread
+
 
 # ------------------------------------------------------------------------------ event log
 class Log:
@@ -334,6 +347,14 @@ def common_op(world, pspec, op):
         do_execute(world, op[1], by=pid)
     elif kind == "service":
         do_service(world, op[1], by=pid)
+    elif kind == "adopt_no_threads":
+        # the adoption happens while thread creation fails (resource exhaustion): adopt may raise, but the
+        # payload must not be run in the calling thread instead
+        FAULT.no_threads = True
+        try:
+            do_adopt(world, op[1], by=pid)
+        finally:
+            FAULT.no_threads = False
     elif kind == "mark":
         LOG("mark", pid=pid, gen=world.gen, label=op[1])
     elif kind == "open_gate":
@@ -427,6 +448,13 @@ async def run_async(world, pspec, args, kwargs):
                 elif kind == "block":
                     while True:
                         await lib.sleep(3600)
+                elif kind == "wait_private":
+                    # "run until cancelled": wait for something only this frame references
+                    LOG("step", pid=pid, gen=world.gen, inside_section=0, **context_facts())
+                    if flavour == "asyncio":
+                        await asyncio.get_running_loop().create_future()
+                    else:
+                        await trio.Event().wait()
                 elif kind == "gate":
                     gate = world.gate(op[1])
                     waited = 0.0
